@@ -399,6 +399,26 @@ def run_algebra(ctx, rng, idx):
                     'mi_matrix by %.3g' % np.abs(ms - mp_).max())
         except Exception as e:  # noqa
             bad('serial-raised', '%s: %s' % (type(e).__name__, str(e)[:200]))
+    # ids beyond the declared range must be rejected through mi_matrix as
+    # well - with separate arrays for the two sides and with the very same
+    # objects passed for both (self-information of one data set)
+    if idx % 3 == 1 and int(X.max()) >= 1:
+        top = int(X.max())
+        under = np.array(NX if np.ndim(NX) else [NX] * X.shape[1]).copy()
+        under[:] = np.minimum(under, top)       # declares one state too few
+        Xs = [X[:cut], X[cut:]] if cut and cut < len(X) else [X]
+        for form, Ys in (('same-objects', Xs),
+                         ('copies', [x.copy() for x in Xs])):
+            try:
+                with warnings.catch_warnings():
+                    warnings.simplefilter('ignore')
+                    got = mi.mi_matrix(Xs, Ys, NX, under, normalize=False)
+            except Exception:  # noqa
+                ctx.count('hostile_rejected')
+            else:
+                bad('mi-matrix-accepts-undeclared-state[%s]' % form,
+                    'state id %d with n_y declared as %s was not rejected' % (
+                        top, under.tolist()))
     # channel capacity normalisation directly, non-square
     try:
         fz = M.copy()
